@@ -438,4 +438,240 @@ theorem leaveRelOne_reads (st : State) (k : Key) (x : Nat) :
   · simp [ha]
   · cases get st.rel x <;> simp [del]
 
+/-! ### at the level of `Pg.Conc.step`: an iteration moves past every region of every exit -/
+
+theorem seq_refl (st : State) : SEq st st := ⟨rfl, rfl, rfl, rfl, rfl, fun _ => rfl⟩
+
+theorem relGmon'_leaveRelOne (st : State) (k : Key) (x a : Nat) :
+    fstep.relGmon' (leaveRelOne st k x) a = fstep.relGmon' st a := by
+  simp only [fstep.relGmon', leaveRelOne, get_alter, leaveH]
+  by_cases h : a = x
+  · subst h; cases get st.rel a <;> simp
+  · simp [h]
+
+theorem relWmon'_leaveRelOne (st : State) (k : Key) (x a : Nat) :
+    fstep.relWmon' (leaveRelOne st k x) a = fstep.relWmon' st a := by
+  simp only [fstep.relWmon', leaveRelOne, get_alter, leaveH]
+  by_cases h : a = x
+  · subst h; cases get st.rel a <;> simp
+  · simp [h]
+
+theorem relMem'_leaveRelOne (st : State) (k : Key) (x a : Nat) (h : a ≠ x) :
+    fstep.relMem' (leaveRelOne st k x) a = fstep.relMem' st a := by
+  simp [fstep.relMem', leaveRelOne, get_alter, h]
+
+/-- one region of the exit of `a` (every region; for `x`'s own exit every region but `take` and `finish`, the
+residual cases (i) and (ii)): same next phase, same state for every lookup -/
+theorem fstep_comm (st : State) (k : Key) (x a : Nat) (ph : Phase) (r : ExReg)
+    (hx : a = x → r ≠ .take ∧ r ≠ .finish) :
+    (fstep a ⟨leaveRelOne st k x, ph⟩ r.toFOp).ph = (fstep a ⟨st, ph⟩ r.toFOp).ph ∧
+    SEq (fstep a ⟨leaveRelOne st k x, ph⟩ r.toFOp).st (leaveRelOne (fstep a ⟨st, ph⟩ r.toFOp).st k x) := by
+  cases r with
+  | mark =>
+    cases ph <;> first | exact ⟨rfl, comm_markDead st k x a⟩ | exact ⟨rfl, seq_refl _⟩
+  | demTake =>
+    cases ph with
+    | marked =>
+      simp only [ExReg.toFOp, fstep, relGmon'_leaveRelOne, relWmon'_leaveRelOne]
+      exact ⟨by first | rfl | trivial, comm_demonTake st k x a⟩
+    | _ => exact ⟨rfl, seq_refl _⟩
+  | demKey k' =>
+    cases ph with
+    | demon gk wk =>
+      simp only [ExReg.toFOp, fstep]
+      by_cases h : k' ∈ gk
+      · rw [if_pos h, if_pos h]; exact ⟨rfl, comm_demonKey st k k' x a⟩
+      · rw [if_neg h, if_neg h]; exact ⟨rfl, seq_refl _⟩
+    | _ => exact ⟨rfl, seq_refl _⟩
+  | demWKey s =>
+    cases ph with
+    | demon gk wk =>
+      simp only [ExReg.toFOp, fstep]
+      by_cases h : s ∈ wk
+      · rw [if_pos h, if_pos h]; exact ⟨rfl, comm_demonWKey st k x a s⟩
+      · rw [if_neg h, if_neg h]; exact ⟨rfl, seq_refl _⟩
+    | _ => exact ⟨rfl, seq_refl _⟩
+  | demDone =>
+    cases ph with
+    | demon gk wk =>
+      cases gk <;> cases wk <;> exact ⟨rfl, seq_refl _⟩
+    | _ => exact ⟨rfl, seq_refl _⟩
+  | take =>
+    have hax : a ≠ x := fun e => (hx e).1 rfl
+    cases ph with
+    | demonDone =>
+      simp only [ExReg.toFOp, fstep, relMem'_leaveRelOne st k x a hax]
+      exact ⟨by first | rfl | trivial, comm_takeMem st k x a⟩
+    | _ => exact ⟨rfl, seq_refl _⟩
+  | lvKey k' =>
+    cases ph with
+    | leaving mk rm =>
+      simp only [ExReg.toFOp, fstep]
+      by_cases h : k' ∈ mk
+      · rw [if_pos h, if_pos h]
+        have hc := comm_leaveKey st k k' x a
+        exact ⟨by simp only [hc.2], hc.1⟩
+      · rw [if_neg h, if_neg h]; exact ⟨rfl, seq_refl _⟩
+    | _ => exact ⟨rfl, seq_refl _⟩
+  | finish =>
+    have hax : a ≠ x := fun e => (hx e).2 rfl
+    cases ph with
+    | leaving mk rm =>
+      cases mk with
+      | nil => exact ⟨rfl, (comm_finishLeave st k x a rm hax).1⟩
+      | cons _ _ => exact ⟨rfl, seq_refl _⟩
+    | _ => exact ⟨rfl, seq_refl _⟩
+
+/-- global states equal for every lookup (ghosts, program counters, lock table, phases: equal) -/
+def GEq (g g' : G) : Prop :=
+  SEq g.st g'.st ∧ g.exits = g'.exits ∧ g.thr = g'.thr ∧ g.locks = g'.locks ∧ g.staleG = g'.staleG ∧
+  g.staleW = g'.staleW ∧ g.sent = g'.sent ∧ g.changes = g'.changes
+
+/-- the global state with an iteration of a `leave_scoped` applied -/
+def withLeaveOne (g : G) (k : Key) (x : Nat) : G := { g with st := leaveRelOne g.st k x }
+
+/-- **An iteration of `leave_scoped` moves past every region of every exit** in `Pg.Conc.step` itself — blocked or
+not, whatever the phase: same phases, same records, same notifications, same state for every lookup; for `x`'s own
+exit every region but `take` / `finish` (residual cases (i), (ii)). -/
+theorem step_ex_comm (g : G) (k : Key) (x a : Nat) (r : ExReg) (hx : a = x → r ≠ .take ∧ r ≠ .finish) :
+    GEq (step (withLeaveOne g k x) (.ex a r)) (withLeaveOne (step g (.ex a r)) k x) := by
+  simp only [step]
+  have hd : (withLeaveOne g k x).st.dead = g.st.dead := rfl
+  have hl : locked (withLeaveOne g k x) = locked g := rfl
+  have hp : phaseOf (withLeaveOne g k x) a = phaseOf g a := rfl
+  rw [hd, hl, hp]
+  split
+  · exact ⟨seq_refl _, rfl, rfl, rfl, rfl, rfl, rfl, rfl⟩
+  · have hc := fstep_comm g.st k x a (phaseOf g a) r hx
+    refine ⟨hc.2, ?_, rfl, rfl, rfl, rfl, ?_, ?_⟩
+    · exact congrArg (AList.set g.exits a) hc.1
+    · show g.sent ++ exEvs (leaveRelOne g.st k x) a (phaseOf g a) r = g.sent ++ exEvs g.st a (phaseOf g a) r
+      cases r <;> first | rfl | (cases phaseOf g a <;> rfl)
+    · show g.changes ++ exRecs (leaveRelOne g.st k x) a (phaseOf g a) r = g.changes ++ exRecs g.st a (phaseOf g a) r
+      cases r with
+      | lvKey k' =>
+        simp only [exRecs]
+        cases phaseOf g a with
+        | leaving mk rm => simp only [(comm_leaveKey g.st k k' x a).2]
+        | _ => rfl
+      | _ => rfl
+
+/-- what must not be the case for a caller region to move: it is not the `joinOne` of `x` for the held entry `k`
+(impossible while a leave holds `k`), and it is not a `remove_empty_actor_relations` of a stopping `x` (case (ii)) -/
+def callMovable (st : State) (k : Key) (x : Nat) : Pc → Prop
+  | .joinIn s g _ (y :: _) => y = x → (s, g) ≠ k
+  | .joinEntered _ _ as _ => x ∉ as ∨ alive st x = true
+  | .monitorRecheck _ b => b ≠ x ∨ alive st b = true
+  | .monitorScopeRecheck _ b => b ≠ x ∨ alive st b = true
+  | _ => True
+
+/-- a caller region other than `join_scoped`'s entry region: same next pc, same records, same notifications, same
+state for every lookup -/
+theorem callStep_comm (st : State) (k : Key) (x : Nat) (pc : Pc) (hm : callMovable st k x pc) :
+    (callStep (leaveRelOne st k x) pc).2 = (callStep st pc).2 ∧
+    SEq (callStep (leaveRelOne st k x) pc).1 (leaveRelOne (callStep st pc).1 k x) := by
+  cases pc with
+  | join s g as => exact ⟨rfl, seq_refl _⟩
+  | joinFiltered s g as => exact ⟨rfl, seq_refl _⟩
+  | joinIn s g as todo => exact ⟨rfl, seq_refl _⟩
+  | joinEntered s g as p => exact ⟨rfl, comm_joinCleanup st k x s g as hm⟩
+  | notify p => exact ⟨rfl, seq_refl _⟩
+  | leave s g as =>
+    have hc := comm_leaveEntry st k x s g as
+    exact ⟨by simp only [callStep, hc.2], hc.1⟩
+  | monitor g b => exact ⟨rfl, comm_relCreate st k x b⟩
+  | monitorRel g b => exact ⟨rfl, comm_monitorEntry st k x g b⟩
+  | monitorRecheck g b => exact ⟨rfl, comm_monitorRecheck st k x g b hm⟩
+  | monitorScope s b => exact ⟨rfl, comm_relCreate st k x b⟩
+  | monitorScopeRel s b => exact ⟨rfl, comm_monitorScopeEntry st k x s b⟩
+  | monitorScopeRecheck s b => exact ⟨rfl, comm_monitorScopeRecheck st k x s b hm⟩
+  | demonitorCall g b =>
+    exact ⟨by simp only [callStep, (leaveRelOne_reads st k x).2.2.2.1 b], seq_refl _⟩
+  | demonitor g b => exact ⟨rfl, comm_demonitor st k x g b⟩
+  | demonitorFwd g b => exact ⟨rfl, comm_demonitorFwd st k x g b⟩
+  | demonitorScopeCall s b =>
+    exact ⟨by simp only [callStep, (leaveRelOne_reads st k x).2.2.2.1 b], seq_refl _⟩
+  | demonitorScope s b => exact ⟨rfl, comm_demonitorScope st k x s b⟩
+  | demonitorScopeFwd s b => exact ⟨rfl, comm_demonitorScopeFwd st k x s b⟩
+  | done => exact ⟨rfl, seq_refl _⟩
+
+theorem needsKey_leaveRelOne (st : State) (k : Key) (x : Nat) (pc : Pc) :
+    needsKey (leaveRelOne st k x) pc = needsKey st pc := by
+  cases pc <;> rfl
+
+/-- the global state after a caller region with result `r` (the last arm of `Pg.Conc.step`) -/
+def afterCall (g : G) (i : Nat) (pc : Pc) (r : State × Pc × List Pending × List Ev) : G :=
+  { g with st := r.1, thr := g.thr.set i r.2.1, changes := g.changes ++ r.2.2.1, sent := g.sent ++ r.2.2.2,
+           staleG := g.staleG ++ staleGOf pc, staleW := g.staleW ++ staleWOf pc }
+
+theorem afterCall_comm (g : G) (k : Key) (x i : Nat) (pc : Pc) (hmv : callMovable g.st k x pc) :
+    GEq (afterCall (withLeaveOne g k x) i pc (callStep (leaveRelOne g.st k x) pc))
+      (withLeaveOne (afterCall g i pc (callStep g.st pc)) k x) := by
+  have hc := callStep_comm g.st k x pc hmv
+  refine ⟨hc.2, rfl, ?_, rfl, rfl, rfl, ?_, ?_⟩
+  · show g.thr.set i _ = g.thr.set i _; rw [hc.1]
+  · show g.sent ++ _ = g.sent ++ _; rw [hc.1]
+  · show g.changes ++ _ = g.changes ++ _; rw [hc.1]
+
+/-- **An iteration of `leave_scoped` moves past every region of every caller thread** in `Pg.Conc.step` itself
+(blocked or not): filters, `joinLock`, `joinOne`, `joinCommit` with its record and recipients, clean-ups, notification
+regions, entry regions of other leaves with their records, every `monitor*` / `demonitor*` region — same program
+counters, lock table, records, notifications, stale ghosts, same state for every lookup. -/
+theorem step_call_comm (g : G) (k : Key) (x i : Nat)
+    (hm : ∀ pc, g.thr[i]? = some pc → callMovable g.st k x pc) :
+    GEq (step (withLeaveOne g k x) (.call i)) (withLeaveOne (step g (.call i)) k x) := by
+  simp only [step]
+  have ht : (withLeaveOne g k x).thr = g.thr := rfl
+  rw [ht]
+  cases hpc : g.thr[i]? with
+  | none => exact ⟨seq_refl _, rfl, rfl, rfl, rfl, rfl, rfl, rfl⟩
+  | some pc =>
+    have hmv := hm pc hpc
+    simp only []
+    have hn : needsKey (withLeaveOne g k x).st pc = needsKey g.st pc := needsKey_leaveRelOne g.st k x pc
+    have hl : locked (withLeaveOne g k x) = locked g := rfl
+    rw [hn, hl]
+    split
+    · exact ⟨seq_refl _, rfl, rfl, rfl, rfl, rfl, rfl, rfl⟩
+    · have hgen := afterCall_comm g k x i pc hmv
+      cases pc with
+      | joinFiltered s g' as => exact ⟨comm_touchGroup g.st k (s, g') x, rfl, rfl, rfl, rfl, rfl, rfl, rfl⟩
+      | joinIn s g' as todo =>
+        cases todo with
+        | nil =>
+          simp only []
+          have ha : asOf (withLeaveOne g k x) (s, g') = asOf g (s, g') := rfl
+          have hacc : accOf (withLeaveOne g k x) (s, g') = accOf g (s, g') := rfl
+          rw [ha, hacc]
+          exact ⟨comm_joinCommit g.st k (s, g') x _, rfl, rfl, rfl, rfl, rfl, rfl, rfl⟩
+        | cons y todo =>
+          simp only []
+          have ha : asOf (withLeaveOne g k x) (s, g') = asOf g (s, g') := rfl
+          have hacc : accOf (withLeaveOne g k x) (s, g') = accOf g (s, g') := rfl
+          have hal : alive (withLeaveOne g k x).st y = alive g.st y := rfl
+          rw [ha, hacc, hal]
+          refine ⟨?_, rfl, rfl, rfl, rfl, rfl, rfl, rfl⟩
+          show SEq (if _ then joinOne (leaveRelOne g.st k x) (s, g') y else leaveRelOne g.st k x)
+            (leaveRelOne (if _ then joinOne g.st (s, g') y else g.st) k x)
+          split
+          · exact comm_joinOne g.st k (s, g') x y hmv
+          · exact seq_refl _
+      | join s g' as => exact hgen
+      | joinEntered s g' as p => exact hgen
+      | notify p => exact hgen
+      | leave s g' as => exact hgen
+      | monitor g' b => exact hgen
+      | monitorRel g' b => exact hgen
+      | monitorRecheck g' b => exact hgen
+      | monitorScope s b => exact hgen
+      | monitorScopeRel s b => exact hgen
+      | monitorScopeRecheck s b => exact hgen
+      | demonitorCall g' b => exact hgen
+      | demonitor g' b => exact hgen
+      | demonitorFwd g' b => exact hgen
+      | demonitorScopeCall s b => exact hgen
+      | demonitorScope s b => exact hgen
+      | demonitorScopeFwd s b => exact hgen
+      | done => exact hgen
+
 end Pg.Conc
